@@ -6,7 +6,7 @@
 EXTENDS Bytes
 C == INSTANCE WireClient
 S == INSTANCE WireServer
-N == INSTANCE WireNla
+N == INSTANCE WireNla WITH Strict <- TRUE
 
 Tp(p) == <<3, 0>> \o EncU16BE(Len(p) + 4) \o p
 X(p) == Tp(<<2, 240, 128>> \o p)
